@@ -97,6 +97,17 @@ class ZipfRules:
                             if g is not None and not g.get('const'):
                                 self.sink.bad('C19.DEPS', '%s::%s reads the non-constant global %s' % (sn, f['short'], e['path'][1]), self.loc(f), '')
                 self.sink.ok('C19.NOMUT', '%s::%s writes nothing reachable from this or from globals' % (sn, f['short']), self.loc(f), '%d paths' % len(self.paths(f)))
+            # static-storage locals anywhere in the sampling path (GetCDF, GetHarmonicNum): hidden state
+            for f in reach[1:]:
+                for p in self.paths(f):
+                    statics = set()
+                    for e in p.events:
+                        if e['kind'] == 'decl' and e['storage'] != 'auto':
+                            statics.add(e['name'])
+                            self.sink.bad('C19.TLS', '%s::%s %s local %s' % (sn, f['short'], e['storage'], e['name']), self.loc(f, e['line']),
+                                          'a %s local in the sampling path carries state between calls and between generators' % e['storage'])
+                        elif e['kind'] == 'assign_local' and e['path'][2] in statics:
+                            self.sink.bad('C19.NOMUT', '%s::%s writes the static-storage local %s' % (sn, f['short'], e['path'][2]), self.loc(f, e['line']), '')
             # PURE.TLS / PURE.DEPS on operator()
             eng_param = S('&' + op['params'][0]['name']) if op['params'] else None
             seen_tls = 0
